@@ -42,6 +42,8 @@ func init() {
 				NeedCounters: []string{"cancel-on-loss"}},
 			{Name: fmt.Sprintf("req-retry-context-opened-later-hist-D%d", d-1), Mode: "hist", Reset: kit.ResetGlobals, Body: func() { histOpt(d-1, 10*time.Second, true) },
 				NeedCounters: []string{"context-opened-while-a-request-is-outstanding", "retx-carrier-lost", "retx-timer"}},
+			{Name: fmt.Sprintf("req-retry-time-changed-hist-D%d", d), Mode: "hist", Reset: kit.ResetGlobals, Body: func() { histRetune(d, 10*time.Second) },
+				NeedCounters: []string{"retry-time-changed-with-a-request-outstanding", "retx-timer", "retx-carrier-lost", "cancel-on-loss"}},
 			{Name: fmt.Sprintf("req-slow-peer-hist-D%d", d), Mode: "hist", Reset: kit.ResetGlobals, Body: func() { SlowPeerHist(d) }},
 			{Name: "req-newcomer-while-every-peer-is-busy", Mode: "enum", Reset: kit.ResetGlobals, Body: newcomerWhileBusy, NeedCounters: []string{"waiting-request-went-to-the-newcomer"}},
 			{Name: "stream-write-fails-then-retransmission", Mode: "enum", Reset: kit.ResetGlobals, Body: c16.WriteFailsThenRetransmit, NeedCounters: []string{"retransmitted-intact"}},
@@ -63,12 +65,14 @@ type request struct {
 	used    map[time.Duration]bool // timer slots already consumed
 	owed    bool                   // a (re)transmission is waiting for a pipe
 	drops   int                    // carrier losses not yet answered by a retransmission
+	vals    []time.Duration        // retry intervals in force on the context since the latest transmission (nil: the world's)
 	done    bool                   // answered, cancelled or closed: must never be transmitted again
 	why     string
 	sentAt  time.Duration
 }
 
 type mctx struct {
+	R      time.Duration // the context's own retry interval (retry-time-changed histories)
 	name   string
 	c      mangos.Context
 	s      mangos.Socket
@@ -95,6 +99,8 @@ func (m *mctx) recvCall() ([]byte, error) {
 }
 
 type world struct {
+	retune int  // >0: that many more RetryTime changes may be made by events of the history
+	retuned bool
 	late  bool // a further context may be opened by an event of the history
 	R     time.Duration
 	sock  mangos.Socket
@@ -204,6 +210,36 @@ func (w *world) findReq(id uint32) (*mctx, *request) {
 	return nil, nil
 }
 
+// window: the retry intervals that were in force on the request's context at some time since the
+// request's latest transmission.  A timer-driven retransmission is never due before the smallest
+// positive one has elapsed and is certainly due once the largest has (if retries were on throughout).
+func (w *world) window(r *request) (min, max time.Duration, off bool) {
+	vals := r.vals
+	if vals == nil {
+		vals = []time.Duration{w.R}
+	}
+	for _, v := range vals {
+		if v == 0 {
+			off = true
+			continue
+		}
+		if min == 0 || v < min {
+			min = v
+		}
+		if v > max {
+			max = v
+		}
+	}
+	return
+}
+
+func (w *world) ctxR(m *mctx) time.Duration {
+	if w.retuned {
+		return m.R
+	}
+	return w.R
+}
+
 // account validates every transmission that appeared since the last call.
 func (w *world) account() {
 	for _, sm := range w.newWire() {
@@ -234,9 +270,9 @@ func (w *world) account() {
 			kit.Count("retx-carrier-lost")
 		default:
 			ok := false
-			if w.R > 0 && len(r.txs) > 0 {
+			if minR, _, _ := w.window(r); minR > 0 && len(r.txs) > 0 {
 				last := r.txs[len(r.txs)-1].at
-				ok = sm.At >= last+w.R
+				ok = sm.At >= last+minR
 			}
 			if !ok {
 				kit.Failf("tx-too-soon", "%s: request %08x re-sent at %v on pipe %d although less than the retry interval (%v) has elapsed since its previous transmission %v and its connection was not lost", m.name, id, sm.At, sm.pipe, w.R, r.txs)
@@ -244,6 +280,9 @@ func (w *world) account() {
 			kit.Count("retx-timer")
 		}
 		r.txs = append(r.txs, tx{sm.At, sm.pipe})
+		if w.retuned {
+			r.vals = []time.Duration{m.R}
+		}
 	}
 }
 
@@ -327,6 +366,51 @@ func (w *world) events() []kit.Event {
 			c.closed = true
 			w.retire(c, "closed")
 		}})
+	}
+	if w.retune > 0 {
+		for _, m := range w.ctxs {
+			m := m
+			if m.closed {
+				continue
+			}
+			for _, v := range []time.Duration{0, w.R / 2, w.R} {
+				v := v
+				if v == m.R {
+					continue
+				}
+				evs = append(evs, kit.Event{Name: fmt.Sprintf("retry-time:%s:%v", m.name, v), Run: func() {
+					w.retune--
+					var err error
+					kit.Must("SetOption(RetryTime)", func() {
+						if m.c != nil {
+							err = m.c.SetOption(mangos.OptionRetryTime, v)
+						} else {
+							err = m.s.SetOption(mangos.OptionRetryTime, v)
+						}
+					})
+					if err != nil {
+						kit.Failf("retry-time-refused", "%s: SetOption(RetryTime, %v): %s", m.name, v, kit.ErrName(err))
+					}
+					m.R = v
+					if m.cur != nil {
+						if m.cur.vals == nil {
+							m.cur.vals = []time.Duration{}
+						}
+						m.cur.vals = append(m.cur.vals, v)
+						kit.Count("retry-time-changed-with-a-request-outstanding")
+					}
+					var got interface{}
+					if m.c != nil {
+						got, err = m.c.GetOption(mangos.OptionRetryTime)
+					} else {
+						got, err = m.s.GetOption(mangos.OptionRetryTime)
+					}
+					if err != nil || got.(time.Duration) != v {
+						kit.Failf("retry-time-get", "%s: RetryTime reads %v (%s) after %v was set", m.name, got, kit.ErrName(err), v)
+					}
+				}})
+			}
+		}
 	}
 	if w.late && len(w.ctxs) < 3 {
 		evs = append(evs, kit.Event{Name: "open-context", Run: func() {
@@ -430,7 +514,7 @@ func (w *world) doDrop(i int) {
 	w.pipes[i].Drop()
 	for _, m := range w.ctxs {
 		if m.cur != nil && len(m.cur.txs) > 0 && m.cur.txs[len(m.cur.txs)-1].pipe == i {
-			if w.R == 0 {
+			if w.ctxR(m) == 0 {
 				// retries disabled: losing the connection cancels the request
 				w.retire(m, "cancelled-by-loss")
 				m.hasAns = false
@@ -458,10 +542,12 @@ func (w *world) settle() {
 				if r.owed {
 					kit.Failf("no-retx-when-peer-arrives", "%s: request %08x was waiting for a peer, one is connected now, but it was not sent", m.name, r.id)
 				}
-				if len(r.txs) > 0 && w.R > 0 {
+				if _, maxR, off := w.window(r); len(r.txs) > 0 && maxR > 0 && !off {
 					last := r.txs[len(r.txs)-1].at
-					if now >= last+w.R {
-						kit.Failf("no-retx-after-interval", "%s: request %08x last sent at %v, retry interval %v elapsed (now %v), not re-sent", m.name, r.id, last, w.R, now)
+					// (with intervals of R/2 a retry timer armed during the harness' own sleep may be
+					// due at this very instant and fire after the sleep's timer: due "just now" is not late)
+					if now > last+maxR || (now == last+maxR && !w.retuned) {
+						kit.Failf("no-retx-after-interval", "%s: request %08x last sent at %v, retry interval %v elapsed (now %v), not re-sent", m.name, r.id, last, maxR, now)
 					}
 				}
 			} else {
@@ -554,6 +640,38 @@ func histOpt(depth int, R time.Duration, late bool) {
 		kit.Quiesce()
 		w.settle() // whatever is still unanswered has been re-sent meanwhile, nothing else was
 	}
+	kit.Must("Socket.Close", func() { _ = w.sock.Close() })
+	kit.Quiesce()
+	for _, m := range w.ctxs {
+		w.retire(m, "closed")
+	}
+	kit.Sleep(3 * time.Minute)
+	kit.Quiesce()
+	w.account()
+}
+
+// histRetune: the retry interval of a context (or of the socket, for its own requests) is changed by
+// events of the history - also while a request is outstanding: to half the interval, back, or to
+// zero (retries off).  A retransmission is never made before the smallest interval in force since
+// the previous transmission has elapsed, is made once the largest has (unless retries were off in
+// between), and what a lost connection does to a request follows the value in force at the loss.
+// The last peer is never dropped here.
+func histRetune(depth int, R time.Duration) {
+	sendDeadline = 0
+	failNoPeers = false
+	w := setup(R, 2)
+	w.retuned = true
+	w.retune = 2
+	for _, m := range w.ctxs {
+		m.R = R
+	}
+	keep := failNoPeers
+	failNoPeers = true // (only read by events(): never drop the last peer)
+	kit.Hist(depth, w.events, w.settle)
+	failNoPeers = keep
+	kit.Sleep(3*R + time.Millisecond)
+	kit.Quiesce()
+	w.settle()
 	kit.Must("Socket.Close", func() { _ = w.sock.Close() })
 	kit.Quiesce()
 	for _, m := range w.ctxs {
